@@ -328,4 +328,187 @@ theorem gunzip_fileStored (m : Hdr × List Bytes) (ms : List (Hdr × List Bytes)
     simp only [List.length_append]
     omega
 
+/-! ## truncation: every proper prefix of a member that still has its header fails, after a prefix of the data -/
+
+theorem takeBits_none : ∀ (n : Nat) (s : Bits), s.length < n → takeBits n s = none
+  | 0, _, h => by simp at h
+  | n + 1, [], _ => rfl
+  | n + 1, b :: s, h => by
+    simp only [List.length_cons] at h
+    simp [takeBits, takeBits_none n s (by omega)]
+
+theorem readBits_none (n : Nat) (s : Bits) (h : s.length < n) : readBits n s = none := by
+  simp [readBits, takeBits_none n s h]
+
+theorem copyStored_short (q : Bytes) (n : Nat) (out : Array UInt8) (h : q.length < n) :
+    copyStored n (bitsOf q) out = (out ++ q.toArray, none) := by
+  induction q generalizing n out with
+  | nil =>
+    cases n with
+    | zero => simp at h
+    | succ n => simp [bitsOf, copyStored]
+  | cons b q ih =>
+    cases n with
+    | zero => simp at h
+    | succ n =>
+      rw [bitsOf_cons]
+      show copyStored (n + 1) (_ :: _ :: _ :: _ :: _ :: _ :: _ :: _ :: bitsOf q) out = _
+      rw [copyStored, ih n _ (by simp at h; omega)]
+      have := byte_of_bits b
+      unfold byteBits at this
+      rw [this]
+      simp
+
+theorem readBits16_two (a b : UInt8) (q : Bytes) :
+    ∃ v, readBits 16 (bitsOf (a :: b :: q)) = some (v, bitsOf q) := by
+  rw [bitsOf_cons, bitsOf_cons, ← List.append_assoc]
+  have := readBits_append (byteBits a ++ byteBits b) (bitsOf q)
+  exact ⟨_, this⟩
+
+/-- the block is cut inside LEN / NLEN -/
+theorem storedBlock_cut_hdr (q : Bytes) (hq : q.length < 4) (out : Array UInt8) :
+    storedBlock ([false, false, false, false, false] ++ bitsOf q) out = (out, none) := by
+  unfold storedBlock
+  rw [align_pad5]
+  match q, hq with
+  | [], _ => rfl
+  | [a], _ => rw [readBits_none 16 _ (by simp [bitsOf_length])]
+  | a :: b :: q', hq =>
+    obtain ⟨v, hv⟩ := readBits16_two a b q'
+    rw [hv]
+    simp only []
+    rw [readBits_none 16 _ (by simp [bitsOf_length] at hq ⊢; omega)]
+
+/-- the block is cut inside its data: the bytes that are there are delivered, then the read fails -/
+theorem storedBlock_cut_data (c q : Bytes) (hc : c.length ≤ 65535) (hq : q.length < c.length) (out : Array UInt8) :
+    storedBlock ([false, false, false, false, false] ++ bitsOf (enc16 c.length ++ enc16 (65535 - c.length) ++ q)) out
+      = (out ++ q.toArray, none) := by
+  unfold storedBlock
+  rw [align_pad5]
+  simp only [List.append_assoc]
+  rw [readBits16_enc16 _ (by omega)]
+  simp only []
+  rw [readBits16_enc16 _ (by omega)]
+  simp only [ne_eq, not_true_eq_false, ↓reduceIte]
+  exact copyStored_short q c.length out hq
+
+theorem inflate_zero (s : Bits) (out : Array UInt8) : inflate 0 s out = (out, none) := rfl
+
+/-- one block cut anywhere before its end -/
+theorem inflate_cut_block (f : Bool) (c R : Bytes) (hc : c.length ≤ 65535) (j : Nat) (hj : j < 5 + c.length)
+    (out : Array UInt8) (fuel : Nat) :
+    ∃ d : Bytes, inflate fuel (bitsOf ((storedEnc f c ++ R).take j)) out = (out ++ d.toArray, none) ∧ d <+: c := by
+  cases fuel with
+  | zero => exact ⟨[], by simp [inflate_zero], List.nil_prefix⟩
+  | succ fuel =>
+    cases j with
+    | zero => exact ⟨[], by simp [bitsOf, inflate, readBits, takeBits], List.nil_prefix⟩
+    | succ j =>
+      rw [storedEnc_append, List.take_succ_cons, inflate, readBits3_hdr]
+      have h0 : (if f = true then 1 else 0) / 2 = 0 := by cases f <;> rfl
+      simp only [h0]
+      by_cases h4 : j < 4
+      · have hl : ((enc16 c.length ++ enc16 (65535 - c.length) ++ c ++ R).take j).length < 4 := by
+          rw [List.length_take]; omega
+        rw [storedBlock_cut_hdr _ hl]
+        exact ⟨[], by simp, List.nil_prefix⟩
+      · have ht : (enc16 c.length ++ enc16 (65535 - c.length) ++ c ++ R).take j
+            = enc16 c.length ++ enc16 (65535 - c.length) ++ c.take (j - 4) := by
+          have e4 : (enc16 c.length ++ enc16 (65535 - c.length)).length = 4 := rfl
+          rw [List.append_assoc (enc16 c.length ++ enc16 (65535 - c.length)), List.take_append, e4,
+            List.take_of_length_le (by rw [e4]; omega), List.take_append_of_le_length (by omega)]
+        rw [ht, storedBlock_cut_data c _ hc (by rw [List.length_take]; omega)]
+        exact ⟨c.take (j - 4), rfl, List.take_prefix _ _⟩
+
+theorem deflateStored_length (cs : List Bytes) : (deflateStored cs).length = (cs.map fun c => 5 + c.length).sum := by
+  induction cs with
+  | nil => rfl
+  | cons c cs ih =>
+    cases cs with
+    | nil => simp [deflateStored, storedEnc_length]
+    | cons c2 cs => simp only [deflateStored, List.length_append, storedEnc_length, ih, List.map_cons, List.sum_cons]
+
+/-- a stream of stored blocks cut anywhere before its end -/
+theorem inflate_cut (cs : List Bytes) (hc : ∀ c ∈ cs, c.length ≤ 65535) (j : Nat) (hj : j < (deflateStored cs).length)
+    (out : Array UInt8) (fuel : Nat) :
+    ∃ d : Bytes, inflate fuel (bitsOf ((deflateStored cs).take j)) out = (out ++ d.toArray, none) ∧ d <+: cs.flatten := by
+  induction cs generalizing j out fuel with
+  | nil => simp [deflateStored] at hj
+  | cons c cs ih =>
+    have hcc := hc c (by simp)
+    cases cs with
+    | nil =>
+      simp only [deflateStored, storedEnc_length] at hj
+      have := inflate_cut_block true c [] hcc j hj out fuel
+      simp only [List.append_nil] at this
+      obtain ⟨d, h1, h2⟩ := this
+      exact ⟨d, by simpa [deflateStored] using h1, by simpa using h2⟩
+    | cons c2 cs =>
+      by_cases hb : j < 5 + c.length
+      · obtain ⟨d, h1, h2⟩ := inflate_cut_block false c (deflateStored (c2 :: cs)) hcc j hb out fuel
+        refine ⟨d, by simpa [deflateStored] using h1, ?_⟩
+        exact h2.trans (by simp)
+      · cases fuel with
+        | zero => exact ⟨[], by simp [inflate_zero], List.nil_prefix⟩
+        | succ fuel =>
+          have ht : (deflateStored (c :: c2 :: cs)).take j
+              = storedEnc false c ++ (deflateStored (c2 :: cs)).take (j - (5 + c.length)) := by
+            simp only [deflateStored]
+            rw [List.take_append, storedEnc_length, List.take_of_length_le (by rw [storedEnc_length]; omega)]
+          rw [ht, inflate_storedEnc_nonfinal c _ out fuel hcc]
+          have hj' : j - (5 + c.length) < (deflateStored (c2 :: cs)).length := by
+            simp only [deflateStored, List.length_append, storedEnc_length] at hj
+            omega
+          obtain ⟨d, h1, h2⟩ := ih (fun x hx => hc x (by simp [hx])) (j - (5 + c.length)) hj' (out ++ c.toArray) fuel
+          refine ⟨c ++ d, ?_, ?_⟩
+          · rw [h1]; simp
+          · simp only [List.flatten_cons] at h2 ⊢
+            exact (List.prefix_append_right_inj c).2 h2
+
+theorem readFull_short (n : Nat) (s : Bytes) (h : s.length < n) : ∃ e, readFull n s = .error e := by
+  unfold readFull
+  rw [if_neg (by omega)]
+  split <;> exact ⟨_, rfl⟩
+
+/-- the member body (DEFLATE stream + trailer) cut anywhere before its end -/
+theorem memberBody_cut (cs : List Bytes) (hok : ChunksOk cs) (j : Nat)
+    (hj : j < (deflateStored cs ++ trailer cs.flatten).length) :
+    ∃ d : Bytes, memberBody ((deflateStored cs ++ trailer cs.flatten).take j) = (d, none) ∧ d <+: cs.flatten := by
+  unfold memberBody
+  by_cases hd : j < (deflateStored cs).length
+  · rw [List.take_append_of_le_length (by omega)]
+    obtain ⟨d, h1, h2⟩ := inflate_cut cs hok.2 j hd #[] ((bitsOf ((deflateStored cs).take j)).length + 1)
+    dsimp only
+    rw [h1]
+    exact ⟨d, by simp, h2⟩
+  · rw [List.take_append, List.take_of_length_le (by omega)]
+    dsimp only
+    rw [inflate_deflateStored cs hok.1 hok.2 _ #[] _ (by
+      rw [bitsOf_length, List.length_append]
+      have := deflateStored_length_ge cs
+      omega)]
+    simp only [Array.empty_append, List.toList_toArray, align_bitsOf, bytesOf_bitsOf]
+    have hl : ((trailer cs.flatten).take (j - (deflateStored cs).length)).length < 8 := by
+      rw [List.length_take, trailer_length]
+      rw [List.length_append, trailer_length] at hj
+      omega
+    obtain ⟨e, he⟩ := readFull_short 8 _ hl
+    rw [he]
+    exact ⟨cs.flatten, rfl, List.prefix_refl _⟩
+
+/-- **A gzip file cut anywhere after its header and before its end fails**, after delivering a prefix of its data. -/
+theorem gunzip_cut (h : Hdr) (hw : h.WF) (cs : List Bytes) (hok : ChunksOk cs) (k : Nat)
+    (hk1 : h.encode.length ≤ k) (hk2 : k < (memberStored h cs).length) :
+    ∃ d : Bytes, gunzip ((memberStored h cs).take k) = some (d, true) ∧ d <+: cs.flatten := by
+  unfold memberStored at hk2 ⊢
+  rw [List.append_assoc, List.take_append, List.take_of_length_le hk1]
+  unfold gunzip
+  rw [readHeaderRest_encode h hw]
+  simp only [List.length_append, gunzipFrom]
+  have hj : k - h.encode.length < (deflateStored cs ++ trailer cs.flatten).length := by
+    simp only [List.length_append] at hk2 ⊢; omega
+  obtain ⟨d, h1, h2⟩ := memberBody_cut cs hok _ hj
+  rw [h1]
+  exact ⟨d, rfl, h2⟩
+
 end Rare.C06.Gz
